@@ -215,6 +215,61 @@ def make_canary():
     return {'pickle': x.P0_pickle, 'texts': texts}
 
 
+# ---- histories over DIFFERENT programs that share identifiers ------------------------------------------------
+
+def _cross_program(arg):
+    """all histories over {translate A, translate B, translate C} up to `depth` on one long-lived translator of
+    language L (A, B, C: mc/progfam.name_clash_programs); every text must equal the reference recorded FIRST (fresh
+    translator, before any history), and after every history a fresh translator must still print the references."""
+    import itertools
+    lang, depth = arg
+    pipeline.setup_env()
+    from mc import progfam
+    from mc.choice import ChoiceSource
+    pipeline.configure(Config(lang, (0, 0, 0, 0), 'S'))
+    pipeline.reset_hash_counter()
+    pipeline.install_choice(ChoiceSource('first', None, horizon=10 ** 7), 0)
+    progs = progfam.name_clash_programs(lang)
+    out, stats = [], {'cross_histories': 0, 'cross_translations': 0}
+
+    def tr(t, P):
+        try:
+            return ('ok', pipeline.translate(t, P))
+        except Exception as e:  # noqa
+            return ('exc', type(e).__name__, str(e)[:120])
+    ref = {n: tr(pipeline.new_translator(lang, 'src.a'), P) for n, P in progs.items()}
+    before = {n: pickle.dumps(P) for n, P in progs.items()}
+    for n, r in ref.items():
+        if r[0] != 'ok':
+            return [], {'cross_reference_failed': 1}     # hand-built shape the translator does not support: nothing judged
+    for L in range(1, depth + 1):
+        for hist in itertools.product(sorted(progs), repeat=L):
+            stats['cross_histories'] += 1
+            t = pipeline.new_translator(lang, 'src.a')
+            bad = None
+            for i, n in enumerate(hist):
+                stats['cross_translations'] += 1
+                if tr(t, progs[n]) != ref[n]:
+                    bad = ('shared-translator-text-depends-on-earlier-programs',
+                           'text of a program differs after the same translator translated other programs', i)
+                    break
+            if bad is None:
+                for n in sorted(progs):
+                    stats['cross_translations'] += 1
+                    if tr(pipeline.new_translator(lang, 'src.a'), progs[n]) != ref[n]:
+                        bad = ('fresh-translator-text-depends-on-earlier-translations',
+                               'a fresh translator prints a different text after other translations in the process', n)
+                        break
+            if bad is None and any(pickle.dumps(P) != before[n] for n, P in progs.items()):
+                bad = ('translation-modified-a-program', 'a hand-built program changed while being translated', None)
+            if bad:
+                out.append({'rule': bad[0], 'site': 'src/translators/%s.py' % lang, 'shape': bad[1],
+                            'history': list(hist), 'at': bad[2], 'language': lang})
+                if len(out) >= 3:
+                    return out, stats
+    return out, stats
+
+
 def plan(tier):
     langs = LANGS
     z = (0, 0, 0, 0)
@@ -257,6 +312,13 @@ def run(tier, seed, jobs):
         plans.append({'configs': len(configs), 'limits': configs[0].limits, 'policies': len(policies),
                       'deviation_bound': bound, 'executions': tot.execs})
         validated += explore.validate_fresh(tot, res)
+    import multiprocessing as mp
+    with mp.get_context('fork').Pool(4) as pool:
+        for vs_, st_ in pool.map(_cross_program, [(l, 3 if tier == 'quick' else 4) for l in LANGS]):
+            explore._merge_stats(stats, st_)
+            for v in vs_:
+                res.add(Violation(PROP, v['rule'], v['site'], v['shape'],
+                                  {k: v[k] for k in v if k not in ('rule', 'site', 'shape')}))
     samples.append({'history': [['P1', 'java'], ['P0', 'kotlin'], ['P0', 'java']],
                     'meaning': 'translate erased program to Java, generated program to Kotlin, then '
                                'generated program to Java on the same long-lived translators'})
@@ -279,6 +341,10 @@ def run(tier, seed, jobs):
 def replay(path):
     import json
     d = json.load(open(path))['detail']
+    if 'history' in d and 'schedule' not in d:
+        vs, _ = _cross_program((d['language'], len(d['history'])))
+        print('REPLAY', vs)
+        return 1 if vs else 0
     canary = make_canary()
     x = explore.run_schedule(d['schedule'])
     vs = Oracle({'canary': canary}).judge(x)
